@@ -154,7 +154,7 @@ impl Property for C06 {
         "C06"
     }
     fn rule() -> String {
-        "Generated: otherwise valid worlds (top-level or with a delegated sub-layout); expiry = T + delta with delta in {-10y,-1d,-1h, \
+        "Generated: otherwise valid worlds (top-level or with a delegated sub-layout, also one that two functionaries of a threshold-2 step file as equal copies of which one expires); expiry = T + delta with delta in {-10y,-1d,-1h, \
          -3s..-5ms, -1ms..+1ms, +5ms..+3s, +1h,+1d,+10y, uniform within a day}; T is the wall clock (hook off) or an injected instant anywhere \
          in 1970..9998; the document's expires text is re-spelled as the same instant, (for delegated sub-layouts in a third of the cases beside a sufficient ordinary link of a second functionary, so that the threshold does not depend on the delegation), either after signing (same whole second as signed, so the \
          signatures stay valid) or before the signer parses and signs it with the library, in a random UTC offset (-23:59..+23:59, Z, +00:00, -00:00), with 0-9 fractional digits, optionally \
@@ -176,7 +176,8 @@ impl Property for C06 {
         let outer = valid_world(Cfg { max_steps: 2, max_owners: 1, ..Cfg::basic() });
         let with_sub = valid_world(Cfg { min_steps: 1, max_steps: 2, max_owners: 1, sub_depth: 1, big: true, ..Cfg::basic() });
         (
-            prop_oneof![(outer, Just(false)), (with_sub, Just(true))],
+            // (third arm: two functionaries delegate the step to the same inner supply chain, threshold 2; one copy expires)
+            prop_oneof![3 => (outer, Just(false)), 3 => (with_sub, Just(true)), 2 => (valid_world(Cfg { min_steps: 1, max_steps: 2, max_owners: 1, max_threshold: 2, sub_depth: 1, multi_sub: true, ..Cfg::basic() }), Just(true))],
             delta_strategy(),
             prop_oneof![2 => Just(None), 1 => (0i64..YEAR_9999_END_MS - 400 * 86_400_000).prop_map(Some), 1 => (0i64..(YEAR_9999_END_MS - 400 * 86_400_000) / 1000).prop_map(|s| Some(s * 1000))],
             prop_oneof![2 => Just(None), 1 => Just(Some(0i16)), 4 => (-1439i16..1440).prop_map(Some)],
